@@ -1374,6 +1374,49 @@ func R56() Rule {
 		if len(cleared) < 3 {
 			c.Unknown("R56", "b/floor", token.NoPos, "only %d fields cleared by ScrubMeta", len(cleared))
 		}
+		// (c) memstore.Get returns the metadata and the content of one lookup: readers hold no object lock,
+		// so two lookups can straddle a write and pair one version's metadata with another's bytes
+		if get := P.Func(core.PkgGcsemu, "(*memstore).Get"); get != nil && get.Blocks != nil {
+			c.Fn("(*memstore).Get")
+			okOne, nRet := true, 0
+			recordOf := func(v ssa.Value) ssa.Value {
+				// &rec.meta, rec.data, or a copy / load of such a field → rec
+				for i := 0; i < 6; i++ {
+					v = core.Resolve(v)
+					switch x := v.(type) {
+					case *ssa.FieldAddr:
+						if core.TypeIs(x.X.Type(), core.PkgGcsemu, "memFile") {
+							return core.Resolve(x.X)
+						}
+						v = x.X
+					case *ssa.UnOp:
+						v = x.X
+					case *ssa.Alloc:
+						sts := core.StoresTo(x)
+						if len(sts) != 1 {
+							return nil
+						}
+						v = sts[0].Val
+					default:
+						return nil
+					}
+				}
+				return nil
+			}
+			for _, r := range returnsIn(get) {
+				if len(r.Results) != 3 || core.IsNilConst(core.Resolve(r.Results[0])) {
+					continue
+				}
+				nRet++
+				m, d := recordOf(r.Results[0]), recordOf(r.Results[1])
+				if m == nil || d == nil || m != d {
+					okOne = false
+				}
+			}
+			if nRet > 0 {
+				c.Check(okOne, "R56", "c/memstore.Get-one-record", get.Pos(), "metadata and content come from the same stored record", "memstore.Get assembles its answer from more than one lookup (metadata from one, content from another): a write landing in between yields the metadata of one version with the bytes of another")
+			}
+		}
 		// … and every field the write-time initialiser bakes into the stored record (name, content type)
 		// is also baked at read time: an object whose sidecar is missing (a file placed in the directory,
 		// a legacy store) is served from InitMetaWithUrls alone
@@ -1969,6 +2012,170 @@ func R59() Rule {
 				}
 			}
 		}
+		// (e) work with side effects is not made conditional on the flag still being false
+		// (`changed = changed || collect(x)` skips collect once changed is true); (f) a method with a value
+		// receiver does not assign the receiver's fields (the assignment is lost with the copy)
+		nBadE, nBadF := 0, 0
+		for _, pkg := range []string{core.PkgBttest, core.PkgGcsemu, core.PkgGcsutil} {
+			if P.SPkgs[pkg] == nil {
+				continue
+			}
+			for _, fn := range P.SrcFuncs(pkg) {
+				for _, hb := range fn.Blocks {
+					loop := loopOf(hb)
+					if loop == nil || !loopHeader(hb) {
+						continue
+					}
+					for _, in := range hb.Instrs {
+						phi, ok := in.(*ssa.Phi)
+						if !ok {
+							break
+						}
+						if !isBoolType(phi.Type()) {
+							continue
+						}
+						for _, r := range core.Referrers(phi) {
+							ifi, isIf := r.(*ssa.If)
+							if !isIf || !loop[ifi.Block()] || len(ifi.Block().Succs) != 2 {
+								continue
+							}
+							// the false edge: the flag is still unset
+							fs := ifi.Block().Succs[1]
+							for b := range loop {
+								if b != fs && !fs.Dominates(b) {
+									continue
+								}
+								if core.EdgeDominates(ifi.Block(), 0, b) {
+									continue
+								}
+								for _, bi := range b.Instrs {
+									ci := core.Call(bi)
+									if ci == nil || ci.Static == nil || ci.Static.Blocks == nil || core.PkgPathOf(ci.Static) != pkg {
+										continue
+									}
+									if writesThroughParams(ci.Static) {
+										nBadE++
+										c.Bad("R59", fmt.Sprintf("e/%s/effectful-call-skipped-once-flag-is-set#%d", core.FuncName(fn), nBadE), bi.Pos(), "%s changes what its arguments point to, but is only called while the loop's flag is still false (a short-circuit `flag = flag || f(x)`): once one element set the flag the remaining elements are not processed", core.FuncName(ci.Static))
+									}
+								}
+							}
+						}
+					}
+				}
+				// (f)
+				if fn.Signature.Recv() != nil && fn.Parent() == nil && len(fn.Params) > 0 {
+					if _, isPtr := fn.Signature.Recv().Type().Underlying().(*types.Pointer); !isPtr {
+						if _, isStruct := fn.Signature.Recv().Type().Underlying().(*types.Struct); isStruct {
+							recv := fn.Params[0]
+							var spill *ssa.Alloc
+							for _, r := range core.Referrers(recv) {
+								if st, isSt := r.(*ssa.Store); isSt && st.Val == ssa.Value(recv) {
+									spill, _ = st.Addr.(*ssa.Alloc)
+								}
+							}
+							if spill != nil {
+								for _, r := range core.Referrers(spill) {
+									fa, isFa := r.(*ssa.FieldAddr)
+									if !isFa {
+										continue
+									}
+									for _, rr := range core.Referrers(fa) {
+										st, isSt := rr.(*ssa.Store)
+										if !isSt || st.Addr != ssa.Value(fa) {
+											continue
+										}
+										// read again afterwards? (then the copy is used as a scratch value)
+										usedLater := false
+										for _, r2 := range core.Referrers(spill) {
+											if in2, isIn := r2.(ssa.Instruction); isIn && in2 != ssa.Instruction(fa) && in2 != ssa.Instruction(st) && core.InstrReaches(st, in2) {
+												if _, isDbg := r2.(*ssa.DebugRef); !isDbg {
+													usedLater = true
+												}
+											}
+										}
+										if !usedLater {
+											nBadF++
+											_, fname, _ := core.FieldName(fa)
+											c.Bad("R59", fmt.Sprintf("f/%s/value-receiver-field-assignment#%d", core.FuncName(fn), nBadF), st.Pos(), "%s has a value receiver and assigns its field %s: the assignment changes a copy and is lost (the caller's value keeps its old state — a builder that is never emptied re-sends what it already sent)", core.FuncName(fn), fname)
+										}
+									}
+								}
+							}
+						}
+					}
+				}
+			}
+		}
+		// (g) every table object is built around a definition whose family map is non-nil: the admin RPCs
+		// insert into it, and definitions loaded from storage (a table without families) unmarshal with a nil map
+		if P.SPkgs[core.PkgBttest] != nil {
+			nLit := 0
+			for _, fn := range P.SrcFuncs(core.PkgBttest) {
+				for _, b := range fn.Blocks {
+					for _, in := range b.Instrs {
+						a, isA := in.(*ssa.Alloc)
+						if !isA || !a.Heap || !core.TypeIs(a.Type().(*types.Pointer).Elem(), core.PkgBttest, "table") {
+							continue
+						}
+						if _, isNamed := types.Unalias(a.Type().(*types.Pointer).Elem()).(*types.Named); !isNamed {
+							continue
+						}
+						var def ssa.Value
+						for _, r := range core.Referrers(a) {
+							if fa, isFa := r.(*ssa.FieldAddr); isFa {
+								if _, fname, _ := core.FieldName(fa); fname == "def" {
+									for _, rr := range core.Referrers(fa) {
+										if st, isSt := rr.(*ssa.Store); isSt && st.Addr == ssa.Value(fa) {
+											def = st.Val
+										}
+									}
+								}
+							}
+						}
+						if def == nil {
+							continue
+						}
+						nLit++
+						ensured := false
+						for _, b2 := range fn.Blocks {
+							for _, in2 := range b2.Instrs {
+								st, isSt := in2.(*ssa.Store)
+								if !isSt {
+									continue
+								}
+								fa, isFa := st.Addr.(*ssa.FieldAddr)
+								if !isFa {
+									continue
+								}
+								if _, fname, _ := core.FieldName(fa); fname != "ColumnFamilies" {
+									continue
+								}
+								if _, isMM := core.Resolve(st.Val).(*ssa.MakeMap); !isMM {
+									continue
+								}
+								if core.Resolve(fa.X) != core.Resolve(def) && !core.SameValue(fa.X, def) {
+									continue
+								}
+								// the nil test that guards the default dominates the construction
+								if idom := b2.Idom(); idom != nil && (idom.Dominates(a.Block())) && core.InstrReaches(st, a) {
+									ensured = true
+								}
+							}
+						}
+						c.Check(ensured, "R59", fmt.Sprintf("g/%s/table-definition-has-a-family-map", core.FuncName(fn)), a.Pos(), "the constructor defaults a nil ColumnFamilies map before building the table", "a table object is built around a definition whose ColumnFamilies map may be nil (a stored table without families unmarshals that way): ModifyColumnFamilies then panics with 'assignment to entry in nil map' and kills the process")
+					}
+				}
+			}
+			if nLit == 0 {
+				c.Infof("R59", "g/table-literals", token.NoPos, "no table literal found")
+			}
+		}
+		if nBadE == 0 {
+			c.Ok("R59", "e/no-effectful-call-behind-a-set-flag", token.NoPos, true, "no side-effecting helper is called only while a loop flag is unset")
+		}
+		if nBadF == 0 {
+			c.Ok("R59", "f/no-value-receiver-field-assignment", token.NoPos, true, "no method with a value receiver assigns a receiver field without using it afterwards")
+		}
 		if nBadB == 0 {
 			c.Ok("R59", "b/no-range-over-just-made-map", token.NoPos, true, "%d map range loops inspected", nRange)
 		}
@@ -1990,6 +2197,53 @@ func sameSlot(a, b ssa.Value) bool {
 		return false
 	}
 	return ia.X == ib.X || core.SameValue(ia.X, ib.X) || core.SameCellLoad(ia.X, ib.X)
+}
+
+// writesThroughParams: g stores into memory reachable from its parameters (a field or element
+// of something a parameter points to).
+func writesThroughParams(g *ssa.Function) bool {
+	fromParam := func(v ssa.Value) bool {
+		for i := 0; i < 8; i++ {
+			v = core.Resolve(v)
+			switch x := v.(type) {
+			case *ssa.Parameter:
+				return true
+			case *ssa.FieldAddr:
+				v = x.X
+			case *ssa.IndexAddr:
+				v = x.X
+			case *ssa.UnOp:
+				v = x.X
+			case *ssa.Phi:
+				if len(x.Edges) == 0 {
+					return false
+				}
+				v = x.Edges[0]
+			case *ssa.Extract:
+				v = x.Tuple
+			case *ssa.Next:
+				v = x.Iter
+			case *ssa.Range:
+				v = x.X
+			default:
+				return false
+			}
+		}
+		return false
+	}
+	for _, b := range g.Blocks {
+		for _, in := range b.Instrs {
+			if st, ok := in.(*ssa.Store); ok {
+				switch st.Addr.(type) {
+				case *ssa.FieldAddr, *ssa.IndexAddr:
+					if fromParam(st.Addr) {
+						return true
+					}
+				}
+			}
+		}
+	}
+	return false
 }
 
 // freshEmptyMap: the map ranged over is a make(map…) of the same function, reached through
